@@ -6,6 +6,9 @@ import Mathlib.Tactic.Common
 import Mathlib.Tactic.SplitIfs
 import TfelVerif.C39.Model
 
+set_option linter.unusedSimpArgs false
+set_option linter.unusedSectionVars false
+
 namespace TfelVerif.C39
 
 variable {α : Type}
@@ -72,5 +75,242 @@ theorem Act.thrown_none_iff (a : Act) (s : Stage) : a.thrown s = none ↔ (a = .
 theorem Res.thrown_none_iff (a : Res) (s : Stage) :
     a.thrown s = none ↔ (a = .success ∨ a = .failure ∨ a = .unreliable) := by
   cases a <;> simp [Res.thrown]
+
+/-- the spec "whatever way this piece ends, `P` holds of the events logged" -/
+def always (P : St α → Prop) : Spec α := ⟨P, fun _ => P, fun _ => P⟩
+
+/-- case analysis of one step of the model, every leaf closed by `simp` -/
+macro "step_cases" : tactic =>
+  `(tactic| ((repeat' split) <;> simp_all [always, AllEv, or_imp]))
+
+section steps
+variable [LT α] [DecidableRel (fun a b : α => a < b)] [Sub α] [Neg α] [OfScientific α]
+variable (P : Event α → Prop)
+
+omit [LT α] [DecidableRel (fun a b : α => a < b)] [Sub α] [Neg α] [OfScientific α] in
+theorem stepInit_all (s : Script α) (st : St α) (h : AllEv P st) (hi : P .init) :
+    (stepInit s st).Sat (always (AllEv P)) := by
+  unfold stepInit
+  step_cases
+
+omit [LT α] [DecidableRel (fun a b : α => a < b)] [Sub α] [Neg α] [OfScientific α] in
+theorem stepCheckBounds_all (s : Script α) (st : St α) (h : AllEv P st)
+    (h1 : P .cb) (h2 : P .warn) (h3 : P .cbdone) :
+    (stepCheckBounds s st).Sat (always (AllEv P)) := by
+  unfold stepCheckBounds
+  step_cases
+
+omit [LT α] [DecidableRel (fun a b : α => a < b)] [Sub α] [Neg α] [OfScientific α] in
+theorem stepSosCompute_all (s : Script α) (b : Bool) (st : St α) (h : AllEv P st)
+    (h0 : P (if b then .sos1 else .sos0)) : (stepSosCompute s b st).Sat (always (AllEv P)) := by
+  unfold stepSosCompute
+  step_cases
+
+omit [LT α] [DecidableRel (fun a b : α => a < b)] [Sub α] [Neg α] [OfScientific α] in
+theorem stepExportTO_all (s : Script α) (o : Out) (st : St α) (h : AllEv P st)
+    (h0 : P .gto) (h1 : P (.write o)) : (stepExportTO s o st).Sat (always (AllEv P)) := by
+  unfold stepExportTO
+  step_cases
+
+omit [LT α] [DecidableRel (fun a b : α => a < b)] [Sub α] [Neg α] [OfScientific α] in
+theorem stepEnergyCompute_all (has : Bool) (a : Act) (sg : Stage) (e : Event α) (st : St α)
+    (h : AllEv P st) (h0 : P e) : (stepEnergyCompute has a sg e st).Sat (always (AllEv P)) := by
+  unfold stepEnergyCompute
+  step_cases
+
+omit [Sub α] [Neg α] [OfScientific α] in
+theorem stepIntegrate_all (s : Script α) (smt : SMType) (st : St α) (h : AllEv P st)
+    (h0 : ∀ r, P (.ap r)) (h1 : P (.int s.smflag smt)) (h2 : ∀ r, P (.apo r)) (h3 : P .min) :
+    (stepIntegrate s smt st).Sat (always (AllEv P)) := by
+  unfold stepIntegrate
+  step_cases
+
+theorem stepPred_all (v : Variant) (s : Script α) (st : St α) (h : AllEv P st)
+    (h0 : flagged s.k0 = true → P .sos0) (h1 : flagged s.k0 = true → P (.write .sos))
+    (h2 : s.traits.hasPred = true → P (.pred s.smflag (predSmt (predK v s)))) (h3 : P .gto)
+    (h4 : P (.write .kpred)) : (stepPred v s st).Sat (always (AllEv P)) := by
+  unfold stepPred
+  apply R.bind_sat (AllEv P)
+  · split
+    · rename_i hf
+      apply R.bind_sat (AllEv P)
+      · exact stepSosCompute_all P s false st h (by simpa using h0 hf)
+      · intro st hst
+        simp_all [always, AllEv, or_imp]
+    · simpa [always, AllEv, or_imp] using h
+  · intro st hst
+    split
+    · simp_all [always, AllEv, or_imp]
+    · rename_i hp
+      have hp' : s.traits.hasPred = true := by simpa using hp
+      simp only []
+      split
+      · simp_all [always, AllEv, or_imp]
+      · split
+        · simp_all [always, AllEv, or_imp]
+        · apply R.bind_sat (AllEv P)
+          · exact stepExportTO_all P s .kpred _ (by simp_all [AllEv, or_imp]) h3 h4
+          · intro st hst
+            simpa [always, AllEv, or_imp] using hst
+
+theorem AllEvL.mono {P Q : Event α → Prop} {l : List (Event α)} (h : AllEvL P l) (hpq : ∀ e, P e → Q e) :
+    AllEvL Q l := fun e he => hpq e (h e he)
+
+/-- what `pre` may log, with what is then known of the request -/
+def PreEv (v : Variant) (s : Script α) : Event α → Prop
+  | .init | .cb | .warn | .cbdone | .gto | .min | .ap _ | .apo _ => True
+  | .sos0 => flagged s.k0 = true ∧ isPrediction (effK0 s.k0) = true
+  | .write o => (o = .sos ∧ flagged s.k0 = true ∨ o = .kpred) ∧ isPrediction (effK0 s.k0) = true
+  | .pred f t => f = s.smflag ∧ t = predSmt (predK v s) ∧ isPrediction (effK0 s.k0) = true ∧
+      s.traits.hasPred = true
+  | .int f t => f = s.smflag ∧ t = integSmt (effK0 s.k0) ∧ isPrediction (effK0 s.k0) = false ∧
+      (s.traits.hasCTO = true ∨ t = .noStiffness)
+  | _ => False
+
+/-- what the part following a successful integration may log -/
+def TailEv (s : Script α) : Event α → Prop
+  | .exp => True
+  | .ie => s.traits.hasIE = true
+  | .de => s.traits.hasDE = true
+  | .gto => s.traits.hasCTO = true ∧ (0.5 : α) < effK0 s.k0
+  | .sos1 => flagged s.k0 = true
+  | .write o => o = .tf ∨ o = .isv ∨ (o = .se ∧ s.traits.hasIE = true) ∨ (o = .de ∧ s.traits.hasDE = true) ∨
+      (o = .k ∧ s.traits.hasCTO = true ∧ (0.5 : α) < effK0 s.k0) ∨ (o = .sos ∧ flagged s.k0 = true)
+  | _ => False
+
+theorem pre_all (v : Variant) (s : Script α) (st : St α) (hP : ∀ e, PreEv v s e → P e) (h : AllEv P st) :
+    (pre v s st).Sat (always (AllEv P)) := by
+  unfold pre
+  apply R.bind_sat (AllEv P)
+  · exact stepInit_all P s st h (hP _ (by simp [PreEv]))
+  · intro st h
+    apply R.bind_sat (AllEv P)
+    · exact stepCheckBounds_all P s st h (hP _ (by simp [PreEv])) (hP _ (by simp [PreEv])) (hP _ (by simp [PreEv]))
+    · intro st h
+      split
+      · rename_i hpr
+        exact stepPred_all P v s st h (fun hf => hP _ (by simp [PreEv, hf, hpr]))
+          (fun hf => hP _ (by simp [PreEv, hf, hpr])) (fun hp => hP _ (by simp [PreEv, hp, hpr]))
+          (hP _ (by simp [PreEv])) (hP _ (by simp [PreEv, hpr]))
+      · rename_i hpr
+        split
+        · simpa [always] using h
+        · rename_i hc
+          exact stepIntegrate_all P s _ st h (fun r => hP _ (by simp [PreEv]))
+            (hP _ (by
+              simp only [PreEv, true_and]
+              refine ⟨by simpa using hpr, ?_⟩
+              by_cases hh : s.traits.hasCTO = true
+              · exact Or.inl hh
+              · right
+                by_contra hne
+                exact hc ⟨by simpa using hh, hne⟩))
+            (fun r => hP _ (by simp [PreEv])) (hP _ (by simp [PreEv]))
+
+theorem tailEarly_all (s : Script α) (st : St α) (hP : ∀ e, TailEv s e → P e) (h : AllEv P st) :
+    (tailEarly s (effK0 s.k0) st).Sat (always (AllEv P)) := by
+  unfold tailEarly
+  have hst : AllEv P (stepExportState st) := by
+    have h1 := hP .exp (by simp [TailEv])
+    have h2 := hP (.write .tf) (by simp [TailEv])
+    have h3 := hP (.write .isv) (by simp [TailEv])
+    simp_all [stepExportState, AllEv, or_imp]
+  apply R.bind_sat (AllEv P)
+  · split
+    · rename_i hc
+      exact stepExportTO_all P s .k _ hst (hP _ (by simpa [TailEv] using hc)) (hP _ (by simpa [TailEv] using hc))
+    · simpa [always] using hst
+  · intro st h
+    apply R.bind_sat (AllEv P)
+    · unfold stepEnergyCompute
+      split
+      · rename_i hh
+        have := hP .ie (by simpa [TailEv] using hh)
+        split <;> simp_all [always, AllEv, or_imp]
+      · simpa [always] using h
+    · intro st h
+      have h' : AllEv P (storeIf s.traits.hasIE .se st) := by
+        unfold storeIf
+        split
+        · rename_i hh
+          have := hP (.write .se) (by simp [TailEv, hh])
+          simp_all [AllEv, or_imp]
+        · exact h
+      apply R.bind_sat (AllEv P)
+      · unfold stepEnergyCompute
+        split
+        · rename_i hh
+          have := hP .de (by simpa [TailEv] using hh)
+          split <;> simp_all [always, AllEv, or_imp]
+        · simpa [always] using h'
+      · intro st h
+        have h' : AllEv P (storeIf s.traits.hasDE .de st) := by
+          unfold storeIf
+          split
+          · rename_i hh
+            have := hP (.write .de) (by simp [TailEv, hh])
+            simp_all [AllEv, or_imp]
+          · exact h
+        split
+        · rename_i hf
+          apply R.bind_sat (AllEv P)
+          · exact stepSosCompute_all P s true _ h' (by simpa using hP .sos1 (by simpa [TailEv] using hf))
+          · intro st h
+            have := hP (.write .sos) (by simp [TailEv, hf])
+            simp_all [always, AllEv, or_imp]
+        · simpa [always] using h'
+
+theorem tailLate_all (s : Script α) (st : St α) (hP : ∀ e, TailEv s e → P e) (h : AllEv P st) :
+    (tailLate s (effK0 s.k0) st).Sat (always (AllEv P)) := by
+  unfold tailLate
+  apply R.bind_sat (AllEv P)
+  · unfold stepEnergyCompute
+    split
+    · rename_i hh
+      have := hP .ie (by simpa [TailEv] using hh)
+      split <;> simp_all [always, AllEv, or_imp]
+    · simpa [always] using h
+  · intro st h
+    apply R.bind_sat (AllEv P)
+    · unfold stepEnergyCompute
+      split
+      · rename_i hh
+        have := hP .de (by simpa [TailEv] using hh)
+        split <;> simp_all [always, AllEv, or_imp]
+      · simpa [always] using h
+    · intro st h
+      apply R.bind_sat (AllEv P)
+      · split
+        · rename_i hf
+          exact stepSosCompute_all P s true _ h (by simpa using hP .sos1 (by simpa [TailEv] using hf))
+        · simpa [always] using h
+      · intro st h
+        apply R.bind_sat (AllEv P)
+        · split
+          · rename_i hc
+            exact stepExportTO_all P s .k _ h (hP _ (by simpa [TailEv] using hc)) (hP _ (by simpa [TailEv] using hc))
+          · simpa [always] using h
+        · intro st h
+          have h1 := hP .exp (by simp [TailEv])
+          have h2 := hP (.write .tf) (by simp [TailEv])
+          have h3 := hP (.write .isv) (by simp [TailEv])
+          have h4 : s.traits.hasIE = true → P (.write .se) := fun hh => hP _ (by simp [TailEv, hh])
+          have h5 : s.traits.hasDE = true → P (.write .de) := fun hh => hP _ (by simp [TailEv, hh])
+          have h6 : flagged s.k0 = true → P (.write .sos) := fun hh => hP _ (by simp [TailEv, hh])
+          simp only [always, R.sat_next, stepExportState, storeIf]
+          split <;> split <;> split <;> simp_all [AllEv, or_imp]
+
+/-- every event of a whole run is one `pre` or the tail may log (or the constructor / policy / `min`) -/
+theorem body_all (v : Variant) (s : Script α) (st : St α) (hP : ∀ e, PreEv v s e ∨ TailEv s e → P e)
+    (h : AllEv P st) : (body v s st).Sat (always (AllEv P)) := by
+  unfold body
+  apply R.bind_sat (AllEv P)
+  · exact pre_all P v s st (fun e he => hP e (Or.inl he)) h
+  · intro st h
+    split
+    · exact tailLate_all P s st (fun e he => hP e (Or.inr he)) h
+    · exact tailEarly_all P s st (fun e he => hP e (Or.inr he)) h
+
+end steps
 
 end TfelVerif.C39
